@@ -359,7 +359,7 @@ def _run(ck):
     NF = 64
     Kcap = 12 if thorough else 8
     Mmax = 7 if thorough else 5
-    nconf = 90 if thorough else 30
+    nconf = 90 if thorough else 26
     confs = []
     # forced configurations, every run: k sweeps done as maxiter = 1, nsweeps = k (the only way the controller advances the
     # sweep index handed to updateVariableCoeffs), for generic_implicit AND imex_1st_order, with every sweep-dependent
@@ -377,6 +377,17 @@ def _run(ck):
                     conf['alpha'] = rng.choice([F(1, 2), F(3, 4), F(1)])
                 confs.append(conf)
                 fi += 1
+    # forced, every run: the `explicit` sweeper with QE in {EE, PIC} on all four quadrature types (GAUSS / RADAU-RIGHT have a
+    # first node away from t0, where the first column of QE — dTau * f(u0) — is non-zero) x LEGENDRE / EQUID nodes, and the
+    # explicit half of imex_1st_order (alpha = 0 and 1/4) on GAUSS and RADAU-RIGHT nodes
+    for QEname in EXPLICIT_QD:
+        for qt in QUAD_TYPES:
+            for nt in ('LEGENDRE', 'EQUID'):
+                confs.append({'nt': nt, 'qt': qt, 'M': rng.randint(2, 3 if not thorough else 5), 'kind': 'explicit', 'upd': rng.random() < 0.5,
+                              'nsweeps_mode': rng.random() < 0.25, 'QE': QEname, 'Kcap': 5 if not thorough else 8})
+    for qt, al in (('GAUSS', F(0)), ('RADAU-RIGHT', F(1, 4))):
+        confs.append({'nt': 'LEGENDRE', 'qt': qt, 'M': rng.randint(2, 3), 'kind': 'imex', 'upd': rng.random() < 0.5, 'nsweeps_mode': False,
+                      'QI': 'IE', 'QE': 'EE', 'alpha': al, 'Kcap': 5 if not thorough else 8})
     kinds = (['implicit'] * 5 + ['explicit'] * 2 + ['imex'] * 3)
     for ci in range(nconf):
         nt = NODE_TYPES[ci % 6]
